@@ -65,7 +65,7 @@ def gen_access(ctx):
     r = ctx.rng
     cases = []
     shapes = [[6], [0], [3, 4], [2, 3, 2], [2, 1, 2, 2], [0, 3], [3, 0], [2, 0, 2]]
-    idxs = AXIS + [['ia', [0, 0, 1]], ['ia', [-1]], ['ia', [7]], ['bm', [True, False]], ['l', [1, 0]], ['f', 1.5], ['str'],
+    idxs = AXIS + [['ia', [0, 0, 1]], ['ia', [-1]], ['ia', [7]], ['bm', [True, False]], ['l', [1, 0]], ['f', 1.5], ['str'], ['huge'],
                    ['t', 0, 0, 0, 0, 0], ['t', ['s', None, None, None], 0], ['t', 'E', -1], ['t', 'N', ['s', None, None, -1]],
                    ['t', ['ia', [0, 1]], ['ia', [1, 0]]]]
     vals = [dict(kind='scalar', value=7), dict(kind='scalar', value=2.5), dict(kind='list', value=[1, 2]),
@@ -81,6 +81,12 @@ def gen_access(ctx):
                         dict(k='get', index=-1), dict(k='shrink', n=3), dict(k='get', index=full),
                         dict(k='set', index=-1, value=dict(kind='scalar', value=9)), dict(k='get', index=full),
                         dict(k='shrink', n=1), dict(k='get', index=full), dict(k='exit'), dict(k='get', index=full)]
+            if 0 not in sh and sh[0] >= 3:
+                # a read-only handle opened for writing by the context: the context's mode governs,
+                # also after the length changed inside it
+                acc += [dict(k='mode', mode='r'), dict(k='enter', mode='r+'), dict(k='set', index=0, value=dict(kind='scalar', value=4)),
+                        dict(k='shrink', n=1), dict(k='set', index=-1, value=dict(kind='scalar', value=6)),
+                        dict(k='get', index=full), dict(k='exit'), dict(k='get', index=full), dict(k='mode', mode='r+')]
             for _ in range(14 if ctx.quick else 30):
                 x = r.random()
                 if x < 0.08 and not inctx:
@@ -93,9 +99,11 @@ def gen_access(ctx):
                     acc.append(dict(k='hide'))
                 else:
                     ix = r.choice(idxs)
+                    if ix == ['huge'] and 0 in sh[1:]:
+                        ix = 0          # (a result of 2**48 x 0 elements is "allocatable": NumPy would loop)
                     if isinstance(ix, list) and ix[0] == 'bm':
                         ix = ['bm', [r.random() < 0.5 for _ in range(sh[0])]]
-                    if r.random() < 0.7:
+                    if r.random() < 0.7 or ix == ['huge']:      # (assigning through the huge index would loop)
                         acc.append(dict(k='get', index=ix))
                     else:
                         acc.append(dict(k='set', index=ix, value=r.choice(vals)))
@@ -126,6 +134,10 @@ def run(ctx):
             ctx.fail('harness-error', key0, observed=ob); continue
         for acc, o in zip(case['accesses'], ob[:-1]):
             key = dict(key0, access=acc)
+            if acc['k'] == 'mode':
+                if o['res'][0] != 'ok':
+                    ctx.fail('accessmode-assignment-failed', key, observed=o['res'])
+                continue
             if acc['k'] in ('enter', 'exit'):
                 if acc['k'] == 'exit' and o['leak'] != [0, 0]:
                     ctx.fail('leak-after-context', key, observed=o['leak'])
